@@ -147,11 +147,14 @@ def real_build(c: dict[str, Any]) -> Any:
     else:
         set_m()
         set_p()
+    if c.get("in_extras"):
+        d._in_extras = list(c["in_extras"])      # as poetry.core.factory does for members of [extras]
     return d
 
 
 def ctor_line(c: dict[str, Any], probes: list[str], eenc: list[str]) -> str:
-    tail = [opt(c.get("marker") or None), opt(c.get("python")), "1" if c.get("py_first") else "0", *probes, "|", *eenc]
+    tail = [opt(c.get("marker") or None), opt(c.get("python")), "1" if c.get("py_first") else "0", ",".join(c.get("in_extras") or []),
+            *probes, "|", *eenc]
     ex = ",".join(c["extras"])
     if c["kind"] == "registry":
         return core.line("depmk", "registry", c["name"], c["constraint"], ex, *tail)
@@ -179,7 +182,7 @@ def classify(d: Any, text: str | None, src: Any) -> str | None:
     from poetry.core.packages.vcs_dependency import VCSDependency
     if d is not None and not d.is_direct_origin() and GD.looks_like_archive(d.pretty_name):
         return K_ARCHIVE
-    if d is not None and d.in_extras and "extra" not in str(d.marker):
+    if d is not None and d.in_extras and "extra" not in str(d.marker) and not (isinstance(src, dict) and (src.get("ctor") or {}).get("in_extras")):
         return K_INEXTRAS
     if d is not None and not d.is_direct_origin() and text and re.search(r"[<>]=?[^,;)\s]*\+", text.split(";")[0]):
         return K_LOCAL
@@ -246,6 +249,9 @@ def oracle(ctx: core.Ctx, d: Any, witness: dict[str, Any], envs: list[dict[str, 
             bad = f"constraint {d.constraint} -> {d2.constraint}: version {probes[k]} {b1[k]} -> {b2[k]}"
     if bad is None:
         t1, t2 = MC.split_bits(MC.truth(d.marker, envs)), MC.split_bits(MC.truth(d2.marker, envs))
+        if c and c.get("in_extras") and "extra" not in str(d.marker):
+            # recorded membership in extras: the dependency applies when its marker holds and one of these extras is active
+            t1 = [x if x != "1" else ("1" if any(e in env.get("extra", []) for e in d.in_extras) else "0") for x, env in zip(t1, envs)]
         k = next((i for i, (x, y) in enumerate(zip(t1, t2)) if x != y), None)
         ctx.count("oracle:env-comparisons", len(envs))
         if k is not None:
@@ -263,7 +269,7 @@ def outside_domain(d: Any) -> str | None:
     from poetry.core.constraints.version import VersionUnion
     if kind_tag(d) in ("file", "directory"):
         return "path-dependency"
-    if not NAME_RE.fullmatch(d.pretty_name):
+    if not NAME_RE.fullmatch(d.pretty_name) or not all(NAME_RE.fullmatch(e) for e in d.extras):
         return "name-not-pep508"
     if d.constraint.is_empty() or d.marker.is_empty():
         return "unsatisfiable"          # nothing can satisfy it
